@@ -126,10 +126,11 @@ func (l *Ledger) InitGenesis(ctx sdk.Context, g LedgerGenesis) error {
 		if !ok || v.Sign() < 0 {
 			return fmt.Errorf("bad balance %q", b.Amount)
 		}
-		k := balKey(addr, b.Denom)
+		bd := l.norm(s, b.Denom)
+		k := balKey(addr, bd)
 		nv := new(big.Int).Add(getInt(s, k), v)
 		setInt(s, k, nv)
-		sk := supplyKey(b.Denom)
+		sk := supplyKey(bd)
 		setInt(s, sk, new(big.Int).Add(getInt(s, sk), v))
 	}
 	for _, a := range g.Blacklist {
@@ -249,7 +250,7 @@ func (l *Ledger) transfer(ctx sdk.Context, sender sdk.AccAddress, module string,
 			return fmt.Errorf("ledger: invalid coins")
 		}
 	}
-	minting := string(s.Get([]byte(kDenom)))
+	minting := l.norm(s, string(s.Get([]byte(kDenom))))
 	for _, c := range amt {
 		denom := l.norm(s, c.Denom)
 		if denom == minting {
@@ -312,7 +313,7 @@ func (l *Ledger) burn(ctx sdk.Context, msg *ftftypes.MsgBurn) error {
 		return fmt.Errorf("ledger: minter is blacklisted")
 	}
 	denom := l.norm(s, msg.Amount.Denom)
-	if denom != string(s.Get([]byte(kDenom))) {
+	if denom != l.norm(s, string(s.Get([]byte(kDenom)))) {
 		return fmt.Errorf("ledger: burning denom is incorrect")
 	}
 	if msg.Amount.Amount.IsNil() || !msg.Amount.Amount.IsPositive() {
@@ -362,7 +363,7 @@ func (l *Ledger) mint(ctx sdk.Context, msg *ftftypes.MsgMint) error {
 		return fmt.Errorf("ledger: receiver is blacklisted")
 	}
 	denom := l.norm(s, msg.Amount.Denom)
-	if denom != string(s.Get([]byte(kDenom))) {
+	if denom != l.norm(s, string(s.Get([]byte(kDenom)))) {
 		return fmt.Errorf("ledger: minting denom is incorrect")
 	}
 	if msg.Amount.Amount.IsNil() || !msg.Amount.Amount.IsPositive() {
